@@ -356,10 +356,16 @@ func workerLoop() {
 // ---- parent side: plans ------------------------------------------------------------------------------
 
 var theWorker *worker
+var hangs int
 
 func execute(c *hx.Ctx, p Plan) {
 	c.Op("base "+worldText(p.Base), worldText(p.Base))
 	c.Op("worlds []", "[]")
+	if hangs >= 3 {
+		// the service deadlocks again and again: reported three times, do not spend the time budget on more
+		c.Note("skipped-after-hangs")
+		return
+	}
 	if theWorker == nil {
 		theWorker = startWorker()
 	}
@@ -380,6 +386,9 @@ func execute(c *hx.Ctx, p Plan) {
 			texts[j] = q.text()
 		}
 		c.Op("round "+hx.List(texts), a)
+		if a == "hang" {
+			hangs++
+		}
 		if strings.HasPrefix(a, "[") {
 			c.Note("round:finished")
 		} else {
